@@ -18,8 +18,9 @@ rewrite 1 to 1), `lastEditTime`, `databaseUuid` (always the library's own),
 `membershipReference` (always 0), and the UNIQUE (parentListId, nextListId)
 constraint (never violated on states that satisfy the chain invariant; a
 violation would surface as a `sqlite_error` divergence in the tie).
-The recursive view PlaylistAllChildren is modelled as reachability along
-`parentListId` (`descendantIds`).
+The recursive view PlaylistAllChildren is modelled by its own recursion (`levels`: the
+seed row, then level after level the children of the previous level), including the
+non-termination of the real query on a cyclic table.
 -/
 import EngineModel.Basic.Prim
 import EngineModel.Db.Chain
@@ -87,18 +88,24 @@ def plExists (d : Db) (i : Int) : Bool := (d.pl.filter (·.id == i)).length > 0
 def findId (d : Db) (parent : Int) (title : Bytes) : Option Int :=
   ((d.pl.filter (fun r => r.val == title && r.key == parent)).getLast?).map (·.id)
 
-/-- Is `a` reachable from `x` by following parentListId upwards?  (fuel = number of rows) -/
-def isAncFuel (t : Table Bytes) (a : Int) : Nat → Int → Bool
-  | 0, _ => false
-  | n + 1, x =>
-    match get t x with
-    | none => false
-    | some r => if r.key == 0 then false else (r.key == a || isAncFuel t a n r.key)
+/-- `SELECT id FROM Playlist WHERE parentListId = c` in row order. -/
+def kidsOf (t : Table Bytes) (c : Int) : List Int := (t.filter (·.key == c)).map (·.id)
 
-def isAnc (t : Table Bytes) (a x : Int) : Bool := isAncFuel t a t.length x
+/-- The recursive step of the view `PlaylistAllChildren`
+(`WITH FindAllChild AS (SELECT id, id FROM Playlist UNION ALL SELECT cte.id, p.id FROM Playlist p JOIN FindAllChild cte
+ON cte.childListId = p.parentListId)`), for one root: SQLite keeps a queue of result rows and joins each dequeued row
+with Playlist — i.e. level after level, the children of the rows of the previous level, until a level is empty.
+With UNION ALL a cycle makes the query run for ever: more levels than rows can only mean that (`nontermination`). -/
+def levels (t : Table Bytes) : Nat → List Int → Res (List Int)
+  | _, [] => .ok []
+  | 0, _ :: _ => .ub .nontermination
+  | n + 1, lvl => (levels t n (lvl.flatMap (kidsOf t))).bind fun rest => .ok (lvl ++ rest)
 
-/-- playlist_table::descendant_ids: `SELECT childListId FROM PlaylistAllChildren WHERE id = ?`. -/
-def descendantIds (t : Table Bytes) (c : Int) : List Int := (t.filter (fun r => isAnc t c r.id)).map (·.id)
+/-- playlist_table::descendant_ids: `SELECT childListId FROM PlaylistAllChildren WHERE id = ?` (the view drops the
+seed row `id = childListId`; a root that is not in the table has no seed row at all).  The order of the rows within a
+level is the order in which SQLite scans Playlist for the join; nothing the library does depends on it. -/
+def descendantIds (t : Table Bytes) (c : Int) : Res (List Int) :=
+  if (ids t).contains c then levels t t.length (kidsOf t c) else .ok []
 
 /-- The UNIQUE (title, parentListId) constraint as seen by an UPDATE of row `i`. -/
 def titleClash (t : Table Bytes) (i key : Int) (title : Bytes) : Bool :=
@@ -157,8 +164,7 @@ def rmTrackIn (t : Int) (pe : Table Ent) (l : Int) : Table Ent :=
 descendants, then the rows themselves (the first DELETE fires the trigger that
 splices the siblings and deletes the children; the further DELETEs pick up the
 deeper descendants the non-recursive trigger leaves behind). -/
-def plRemove (d : Db) (c : Int) : Db :=
-  let removed := c :: descendantIds d.pl c
+def plRemove (d : Db) (removed : List Int) : Db :=
   let pe := removed.foldl (fun pe i => clearKey fires pe i) d.pe
   let pl := removed.foldl (fun pl i => deleteCascade pl i) d.pl
   { d with pe := pe, pl := pl }
@@ -204,16 +210,23 @@ def step (d : Db) : Op → Db × Res Out
         match p with
         | some q =>
           if !plExists d q then (d, .throw (exn "crate_deleted"))
-          else if (descendantIds d.pl c).contains q then (d, .throw (exn "crate_invalid_parent"))
-          else if row.key != q then plUpdate d c row.val q 0
-          else plUpdate d c row.val row.key row.next
+          else match descendantIds d.pl c with
+            | .throw e => (d, .throw e)
+            | .ub u => (d, .ub u)
+            | .ok ds =>
+              if ds.contains q then (d, .throw (exn "crate_invalid_parent"))
+              else if row.key != q then plUpdate d c row.val q 0
+              else plUpdate d c row.val row.key row.next
         | none =>
           if row.key != 0 then plUpdate d c row.val 0 0
           else plUpdate d c row.val row.key row.next
   -- database_impl::remove_crate
   | .removeCrate c =>
     if !plExists d c then (d, .throw .invalid_argument)      -- playlist_table::remove: no such row
-    else (plRemove d c, .ok none)
+    else match descendantIds d.pl c with
+      | .throw e => (d, .throw e)
+      | .ub u => (d, .ub u)
+      | .ok ds => (plRemove d (c :: ds), .ok none)
   -- database_impl::create_track (of a valid snapshot)
   | .createTrack =>
     let i := d.trSeq + 1
@@ -256,7 +269,7 @@ def qRoots (d : Db) : Res (List Int) := walkIds d.pl 0
 /-- crate::children (ordered) -/
 def qChildren (d : Db) (c : Int) : Res (List Int) := walkIds d.pl c
 /-- crate::descendants -/
-def qDescendants (d : Db) (c : Int) : List Int := descendantIds d.pl c
+def qDescendants (d : Db) (c : Int) : Res (List Int) := descendantIds d.pl c
 /-- crate::parent -/
 def qParent (d : Db) (c : Int) : Res (Option Int) :=
   match get d.pl c with
